@@ -78,9 +78,9 @@ Inductive kase :=
 | KRegSeqZ (p0 : nat * list Q) (fits : list fitd)
            (calls : list (rcall (F:=Q) (Prm:=nat * list Q) (D:=nat))) (expected : list (rout (F:=Q) (Prm:=nat * list Q)))
 (* the arguments (A, B) of every T.solve call of one pass of CPRegressor.fit / TuckerRegressor.fit on INTEGER data (integer initial
-   factors, reg_W = 1, integer answers handed back by an instrumented solve): the model's design matrices phi'phi + I and phi'y, exactly *)
-| KRidgeCPZ (R : nat) (so : list nat) (X y : tensor Z) (W0 : list (tensor Z)) (newW : list (tensor Z)) (eAB : list (tensor Z * tensor Z))
-| KRidgeTKZ (X y : tensor Z) (G0 : tensor Z) (W0 : list (tensor Z)) (newW : list (tensor Z)) (eAB : list (tensor Z * tensor Z))
+   factors, an integer reg_W, integer answers handed back by an instrumented solve): the model's design matrices phi'phi + reg_W I and phi'y, exactly *)
+| KRidgeCPZ (reg : Z) (R : nat) (so : list nat) (X y : tensor Z) (W0 : list (tensor Z)) (newW : list (tensor Z)) (eAB : list (tensor Z * tensor Z))
+| KRidgeTKZ (reg : Z) (X y : tensor Z) (G0 : tensor Z) (W0 : list (tensor Z)) (newW : list (tensor Z)) (eAB : list (tensor Z * tensor Z))
 (* CP_PLSR.score(X, Y) from the fitted attributes *)
 | KPlsrScore (xmean ymean : tensor Q) (loads : list (list (tensor Q))) (coef yload X Y : tensor Q) (expected : Q)
 (* one CP_PLSR object under a sequence of calls (validation, attributes, call-time n_components); each fit call carries the
@@ -250,26 +250,26 @@ Definition routz_close (a : rout (F:=Z) (Prm:=RPrm)) (e : rout (F:=Q) (Prm:=RPrm
   end.
 
 (* ---- the ridge blocks, exactly ---- *)
-Definition cp_AB (R : nat) (so : list nat) (X y : tensor Z) (fs : list (tensor Z)) (i : nat) : tensor Z * tensor Z :=
+Definition cp_AB (reg : Z) (R : nat) (so : list nat) (X y : tensor Z) (fs : list (tensor Z)) (i : nat) : tensor Z * tensor Z :=
   if i <? length (sshape X) then
-    let phi := cp_phi_in Zops X fs so R i in (ridge_lhs Zops 1%Z phi, ridge_rhs Zops phi (reshape [prod (shape y)] y))
+    let phi := cp_phi_in Zops X fs so R i in (ridge_lhs Zops reg phi, ridge_rhs Zops phi (reshape [prod (shape y)] y))
   else
-    let phi := cp_phi_out Zops X fs so R i in (ridge_lhs Zops 1%Z phi, ridge_rhs Zops phi (cp_y_out Zops y so (i - length (sshape X)))).
+    let phi := cp_phi_out Zops X fs so R i in (ridge_lhs Zops reg phi, ridge_rhs Zops phi (cp_y_out Zops y so (i - length (sshape X)))).
 Definition ab_eqb (a b : tensor Z * tensor Z) : bool := zt_eqb (fst a) (fst b) && zt_eqb (snd a) (snd b).
-Fixpoint ridge_cp_walk (R : nat) (so : list nat) (X y : tensor Z) (cur newW : list (tensor Z)) (eAB : list (tensor Z * tensor Z)) (i : nat) : bool :=
+Fixpoint ridge_cp_walk (reg : Z) (R : nat) (so : list nat) (X y : tensor Z) (cur newW : list (tensor Z)) (eAB : list (tensor Z * tensor Z)) (i : nat) : bool :=
   match eAB with
   | [] => true
-  | e :: rest => ab_eqb (cp_AB R so X y cur i) e &&
-                 ridge_cp_walk R so X y (set_nth i (nth i newW (mk [] [])) cur) newW rest (S i)
+  | e :: rest => ab_eqb (cp_AB reg R so X y cur i) e &&
+                 ridge_cp_walk reg R so X y (set_nth i (nth i newW (mk [] [])) cur) newW rest (S i)
   end.
-Definition tk_AB (X y G : tensor Z) (fs : list (tensor Z)) (i : nat) : tensor Z * tensor Z :=
+Definition tk_AB (reg : Z) (X y G : tensor Z) (fs : list (tensor Z)) (i : nat) : tensor Z * tensor Z :=
   let phi := if i <? length fs then tk_phi_mode Zops X G fs i else tk_phi_core Zops X fs (shape G) in
-  (ridge_lhs Zops 1%Z phi, ridge_rhs Zops phi y).
-Fixpoint ridge_tk_walk (X y G : tensor Z) (cur newW : list (tensor Z)) (eAB : list (tensor Z * tensor Z)) (i : nat) : bool :=
+  (ridge_lhs Zops reg phi, ridge_rhs Zops phi y).
+Fixpoint ridge_tk_walk (reg : Z) (X y G : tensor Z) (cur newW : list (tensor Z)) (eAB : list (tensor Z * tensor Z)) (i : nat) : bool :=
   match eAB with
   | [] => true
-  | e :: rest => ab_eqb (tk_AB X y G cur i) e &&
-                 ridge_tk_walk X y G (if i <? length cur then set_nth i (nth i newW (mk [] [])) cur else cur) newW rest (S i)
+  | e :: rest => ab_eqb (tk_AB reg X y G cur i) e &&
+                 ridge_tk_walk reg X y G (if i <? length cur then set_nth i (nth i newW (mk [] [])) cur else cur) newW rest (S i)
   end.
 
 (* ---- the CP_PLSR object ---- *)
@@ -350,8 +350,8 @@ Definition agree_k (k : kase) : bool :=
                                     [] (map (fun r => to_fx (get 0%Q coef [r; c])) (seq 0 k))) (seq 0 k) in
       let a := mkPattrs (shape X) (shape Y) (mkPlsr (t_to_fx xm) (t_to_fx ym) cs) in
       qclose ftol ftol (of_fx (plsr_score Zfx a (t_to_fx X) (t_to_fx Y))) e
-  | KRidgeCPZ R so X y W0 newW eAB => Nat.eqb (length eAB) (length W0) && ridge_cp_walk R so X y W0 newW eAB 0
-  | KRidgeTKZ X y G0 W0 newW eAB => Nat.eqb (length eAB) (S (length W0)) && ridge_tk_walk X y G0 W0 newW eAB 0
+  | KRidgeCPZ reg R so X y W0 newW eAB => Nat.eqb (length eAB) (length W0) && ridge_cp_walk reg R so X y W0 newW eAB 0
+  | KRidgeTKZ reg X y G0 W0 newW eAB => Nat.eqb (length eAB) (S (length W0)) && ridge_tk_walk reg X y G0 W0 newW eAB 0
   | KRegSeqZ p0 fits calls expected =>
       all2 routz_close (snd (rrun (seqz_fit fits) seqz_predict (mkRobj p0 None) (map call_to_fx calls))) expected
   | KPlsrSeq ncomp n_iter tol calls expected =>
